@@ -97,11 +97,12 @@ int main(int argc, char** argv) {
     // shrinking is rapidcheck's, but bounded: after the budget every further candidate "passes", which
     // ends the shrink search at the smallest failing history found so far (then minimise() continues)
     uint64_t shrink_execs = 0; const uint64_t shrink_budget = 1500;
+    size_t fh_steps = 0;  // histories of thousands of steps cost ~0.3 s per execution: small budgets for those
     rc::check(prop.c_str(), [&](const std::vector<uint32_t>& choices) {
-      if (failed && ++shrink_execs > shrink_budget) return;
+      if (failed && ++shrink_execs > (fh_steps > 2000 ? 40 : shrink_budget)) return;
       Chooser ch(choices.data(), choices.size());
       History h = special::generate(ps, ch);
-      if (!one(h)) RC_FAIL(ff.sig + " :: " + ff.msg);
+      if (!one(h)) { fh_steps = 0; for (auto& sc : fh.scripts) fh_steps += sc.steps.size(); RC_FAIL(ff.sig + " :: " + ff.msg); }
     });
   }
   cur.clear();
@@ -111,7 +112,8 @@ int main(int argc, char** argv) {
     if (!failout.empty()) write_file(failout, "# property " + prop + "\n# signature " + ff.sig + "\n# " + ff.msg + "\n" + to_text(fh));
     if (!out.empty()) write_stats(out, prop, st, true, ff.sig, ff.msg, failout, extra_json);
     // rapidcheck's last failing execution is its shrunk counterexample; minimise further on steps
-    History m = special::minimise_any(fh, ps, ff.sig);
+    size_t nsteps = 0; for (auto& sc : fh.scripts) nsteps += sc.steps.size();
+    History m = special::minimise_any(fh, ps, ff.sig, nsteps > 2000 ? 60 : 500);
     Fail f2 = ff;
     { CaseResult cr = special::run_any(m, ps, nullptr); if (cr.failed) f2 = cr.first; }
     std::string txt = "# property " + prop + "\n# signature " + f2.sig + "\n# " + f2.msg + "\n" + to_text(m);
